@@ -92,19 +92,19 @@ fn injection(kind: u8, variant: u8) -> Injection {
     let v = variant as usize;
     let e = Extensions::empty();
     let (prelude, construct, needs, what, stage): (Vec<&str>, String, Extensions, &'static str, Stage) = match kind % N_CONSTRUCTS {
-        0 => (vec![], ["@{}", "#{}", "@{2%kg}", "@ {}"][v % 4].into(), e, "empty name", Stage::Parse),
+        0 => (vec![], ["@{}", "#{}", "@{2%kg}", "@ {}", "@\u{a0}{}", "#\u{2009}{}", "@\u{3000}{1%kg}", "@ \u{a0} {}"][v % 8].into(), e, "empty name", Stage::Parse),
         1 => (vec![], ["@zzq{1/0}", "@zzq{2 1/0%kg}", "#zzq{1/0}", "~zzq{1/0%min}", "@zzq{ 3 / 0 }"][v % 5].into(), e, "zero denominator", Stage::Parse),
         2 => (vec![], ["@zzq{%kg}", "@zzq{ %kg}", "@zzq{ % kg }"][v % 3].into(), e, "empty value", Stage::Parse),
         3 if v % 5 >= 3 => (vec![], ["#zzq{2 large}", "#zzq pot{1/2 kg}"][v % 2].into(), Extensions::ADVANCED_UNITS, "unit on cookware", Stage::Parse),
         3 => (vec![], ["#zzq{1%kg}", "#zzq pot{2 % big ones}", "#zzq{a few%kg}"][v % 3].into(), e, "unit on cookware", Stage::Parse),
         4 => (vec![], ["~zzq{5}", "~{5}", "~zzq{1/2}", "~{ 10 }", "~{25%}", "~zzq{25 % }"][v % 6].into(), e, "timer without unit", Stage::Parse),
         5 => (vec![], ["~zzq{}", "~zzq"][v % 2].into(), Extensions::TIMER_REQUIRES_TIME, "timer without duration", Stage::Parse),
-        6 => (vec![], "~{}".into(), e, "timer with neither name nor duration", Stage::Parse),
+        6 => (vec![], ["~{}", "~\u{a0}{}", "~ {}"][v % 3].into(), e, "timer with neither name nor duration", Stage::Parse),
         7 => (vec![], ["@??zzq{}", "#?-?zzq{}", "@-?-zzq{1%kg}", "@++zzq{}"][v % 4].into(), Extensions::COMPONENT_MODIFIERS, "duplicate modifier", Stage::Parse),
         8 => (vec![], ["#@zzq{}", "#?@zzq{2}"][v % 2].into(), Extensions::COMPONENT_MODIFIERS, "recipe modifier on cookware", Stage::Parse),
         9 => (vec![], ["#&(1)zzq{}", "#&(~1)zzq{}"][v % 2].into(), Extensions::INTERMEDIATE_PREPARATIONS, "intermediate reference on cookware", Stage::Parse),
         10 => (vec![], ["~?zzq{5%min}", "~&zzq{5%min}", "~-{5%min}"][v % 3].into(), Extensions::COMPONENT_MODIFIERS, "modifiers on timer", Stage::Parse),
-        11 => (vec![], ["@zzq|{}", "#zzq| {}", "@zzq | {1%kg}"][v % 3].into(), Extensions::COMPONENT_ALIAS, "empty alias", Stage::Parse),
+        11 => (vec![], ["@zzq|{}", "#zzq| {}", "@zzq | {1%kg}", "@zzq|\u{3000}{}", "#zzq|\u{a0}{}"][v % 5].into(), Extensions::COMPONENT_ALIAS, "empty alias", Stage::Parse),
         12 => (vec![], ["@zzq|a|b{}", "#zzq|a|b|c{}"][v % 2].into(), Extensions::COMPONENT_ALIAS, "multiple aliases", Stage::Parse),
         13 => (vec![], ["~zzq|a{5%min}", "~zzq|nap{1%h}"][v % 2].into(), Extensions::COMPONENT_ALIAS, "alias on timer", Stage::Parse),
         14 => (vec![], ["@&zzq{}", "#&zzq{}", "@&zzq{1%kg}", "@&zzq"][v % 4].into(), Extensions::COMPONENT_MODIFIERS, "dangling reference", Stage::Analysis),
